@@ -64,7 +64,7 @@ CHECKS: dict[str, dict] = {
     },
     "C01": {
         "specs": [("rx", "serial", 2400, 40000), ("rx", "file", 1600, 30000), ("rx", "dict", 1600, 30000),
-                  ("rx", "mqtt", 1200, 20000), ("rx", "decode", 1000, 20000)],
+                  ("rx", "mqtt", 1200, 20000), ("rx", "decode", 600, 20000)],
         "budget": (120, 1500),
         "rule": "one run = a stream of 5-150 lines (real corpus lines, payloads sampled from the library's own per-code "
                 "regexes under the three address shapes, and 1-3-edit corruptions of both) offered through one transport: "
@@ -278,7 +278,7 @@ CHECKS["C16"] = {
 }
 
 CHECKS["C14"] = {
-    "specs": [("state", "fresh", 6000, 90000)],
+    "specs": [("state", "fresh", 6000, 90000), ("rx", "mqtt", 500, 10000)],
     "budget": (150, 1800),
     "rule": "one run = 20-140 steps against a live gateway with a configured system (2-6 of zones 00-0B, DHW in 60 %): stateful frames "
             "generated by the engine in the shapes seen in the corpus (controller arrays and per-zone replies of 30C9/2309/000A, 2349, "
